@@ -16,12 +16,12 @@ import (
 type TxKind int
 
 const (
-	KTransfer TxKind = iota // types.Transaction with a recipient
-	KCreate                 // types.Transaction, contract creation (nil recipient)
-	KToken                  // types.TokenTransaction
-	KMultiSign              // types.MultiSignAccountTx
-	KUpgrade                // types.ContractUpgradeTx
-	KUTXO                   // types.UTXOTransaction, filled structurally (no crypto)
+	KTransfer  TxKind = iota // types.Transaction with a recipient
+	KCreate                  // types.Transaction, contract creation (nil recipient)
+	KToken                   // types.TokenTransaction
+	KMultiSign               // types.MultiSignAccountTx
+	KUpgrade                 // types.ContractUpgradeTx
+	KUTXO                    // types.UTXOTransaction, filled structurally (no crypto)
 	NumTxKinds
 )
 
